@@ -600,10 +600,10 @@ def model_results(m, nthreads):
 
 def run_case(impl, case, m):
     """one schedule on the implementation; returns (impl results, drift)"""
-    impl.reset()
+    impl.reset_light()
     for _, f in TARGETS[case["target"]]:
         impl.ver[f] = 0
-        impl._write(f)
+        impl.dirty.add(f)
     s = Sched(impl, case["target"])
     steps = annotate_steps(case, m["steps"])
     res, drift = s.run(case["progs"], steps)
@@ -648,12 +648,12 @@ def correspond_concurrent(ctx, res, cases=None):
     known = {f["id"] for f in ctx.findings}
     if cases is None:
         cases = corpus_cases()
-        n = ctx.n(400, 3000)
+        n = ctx.n(300, 1000)
         for i in range(n):
             cases.append(gen_case(ctx.rng, SCHED_FAMILIES[i % len(SCHED_FAMILIES)]))
         # two cache levels (model Conc2): front-end wrapper over platform wrapper, both objects' parks scheduled
         cases += corpus_cases2()
-        for i in range(ctx.n(250, 3000)):
+        for i in range(ctx.n(250, 1800)):
             cases.append(gen_case2(ctx.rng, SCHED_FAMILIES2[i % len(SCHED_FAMILIES2)]))
         exhaustive = None
         if ctx.tier == "thorough" and ctx.budget_factor == 1:
